@@ -18,7 +18,7 @@ BOUNDS = {
     "quick": {"2 faces x 1 axis": "all four slots arbitrary: presence Bool, face Int in 0..2 (2 = no such face), axis in {X, Y(not linked), Q(no such axis)}, reverse Bool -- a superset of the 625 tables",
               "2 faces x 2 axes": "every single slot arbitrary (presence, face 0..2, axis X/Y/Q, reverse) around each of 14 consistent base tables; every pair of the 8 slots arbitrary around 4 of them (thorough: all 14)",
               "other": "two face dimensions; face dimension absent from the dataset"},
-    "thorough": {"3 faces x 2 axes": "every pair of the 12 slots arbitrary around 40 consistent chain/ring tables; 4-6 faces with self-links: one arbitrary slot around seeded consistent tables"},
+    "thorough": {"3 faces x 2 axes": "every pair of the 12 slots arbitrary around 24 consistent chain/ring tables; 4-6 faces with self-links: one arbitrary slot around seeded consistent tables"},
 }
 OUTSIDE = ["tables whose keys are not ints / axis names of other types", "tables with a key that is not a grid axis", "more than 6 faces"]
 ASSUMPTIONS = ["link tuples are (int, axis name, bool) or None"]
@@ -79,7 +79,7 @@ def cases(tier):
             t = chain_table(list(k3), ring=True)
             if t is not None:
                 bases.append(t)
-        for bi, base in enumerate(rng.sample(bases, 40)):
+        for bi, base in enumerate(rng.sample(bases, 24)):
             tb = full(base, 3, ["X", "Y"])
             slots = [(f, a, s) for f in range(3) for a in "XY" for s in (0, 1)]
             for s1, s2 in itertools.combinations(range(len(slots)), 2):
